@@ -199,7 +199,44 @@ def module_source(models):
             ad = addr_exprs(tree, "x")
             src.append("def lay_%s():\n    cdef %s x\n    return [sizeof(%s), [%s]]\n" % (
                 cid, ctype, ctype, ", ".join("[<size_t>(%s) - <size_t>&x, %s]" % (a, s) for a, s, _, _ in ad)))
+    src.append(GEOM_FUNCS)
     return "\n".join(src), ids
+
+
+# part G: declared axes (spec/BufGeom.tla) -> function reading all elements in C order of the indices
+GEOM_DECL = {"strided": ("gm_s", "gb_1"), "contig": ("gm_c", None), "strided+strided": ("gm_ss", "gb_2"),
+             "follow+contig": ("gm_fc", None), "contig+follow": ("gm_cf", None), "follow+follow+contig": ("gm_ffc", None),
+             "strided+strided+strided": ("gm_sss", "gb_3")}
+
+
+def _geom_func(name, decl, nd, legacy):
+    lines = ["def %s(%s, Py_ssize_t n0, Py_ssize_t n1, Py_ssize_t n2):" % (name, ("object[int, ndim=%d] v" % nd) if legacy else "obj")]
+    if not legacy:
+        lines.append("    cdef %s v = obj" % decl)
+        lines.append("    n0 = v.shape[0]")
+        if nd > 1:
+            lines.append("    n1 = v.shape[1]")
+        if nd > 2:
+            lines.append("    n2 = v.shape[2]")
+    lines.append("    cdef Py_ssize_t i, j, k")
+    lines.append("    out = []")
+    ind = "    "
+    idx = []
+    for d, var in zip(range(nd), "ijk"):
+        lines.append("%sfor %s in range(n%d):" % (ind, var, d))
+        ind += "    "
+        idx.append(var)
+    lines.append("%sout.append(v[%s])" % (ind, ", ".join(idx)))
+    lines.append("    return out")
+    return "\n".join(lines) + "\n"
+
+
+GEOM_FUNCS = "\n".join([
+    _geom_func("gm_s", "int[:]", 1, False), _geom_func("gm_c", "int[::1]", 1, False),
+    _geom_func("gm_ss", "int[:, :]", 2, False), _geom_func("gm_fc", "int[:, ::1]", 2, False),
+    _geom_func("gm_cf", "int[::1, :]", 2, False), _geom_func("gm_ffc", "int[:, :, ::1]", 3, False),
+    _geom_func("gm_sss", "int[:, :, :]", 3, False),
+    _geom_func("gb_1", None, 1, True), _geom_func("gb_2", None, 2, True), _geom_func("gb_3", None, 3, True)])
 
 
 def model_leaf_meta(mname):
@@ -360,7 +397,17 @@ def one(c):
     e = mod.Exp(raw[:max(isz * n, 1) if strides is None else len(raw)], fmt.encode("latin1"), isz, tuple(shape),
                 None if strides is None else tuple(strides), off, None if sub is None else tuple(sub))
     try:
-        r = ["ok", [norm(x) for x in getattr(mod, fn)(e, shape[0])]]
+        if fn == "P_geom":          # CPython's own memoryview as oracle for contiguity and element order
+            m = memoryview(e)
+            flat = m.tolist()
+            for _ in range(m.ndim - 1):
+                flat = [y for x in flat for y in x]
+            r = ["ok", [m.c_contiguous, m.f_contiguous] + flat]
+            m.release()
+        elif fn[:2] in ("gm", "gb"):
+            r = ["ok", getattr(mod, fn)(e, *(list(shape) + [0, 0, 0])[:3])]
+        else:
+            r = ["ok", [norm(x) for x in getattr(mod, fn)(e, shape[0])]]
     except BaseException as ex:
         r = ["exc", type(ex).__name__]
     return r + [e.gets, e.releases]
